@@ -105,6 +105,16 @@ func b58EncLen(n int) int { return n*138/100 + 1 }
 
 type b58rec struct{ raw, txt []byte }
 
+// b58Alphabet: base-58 text consists of alphanumeric characters only ('1'..'z'): in particular no
+// white space and no '-'.
+func b58Alphabet(txt []byte) {
+	ok := true
+	for _, c := range txt {
+		ok = And(ok, And(c >= '1', c <= 'z'))
+	}
+	Axiom(ok)
+}
+
 var b58encs, b58decs []b58rec
 var b58decOK []bool
 
@@ -114,6 +124,7 @@ func Model_b58_Encode(b []byte) string {
 		return b58.Encode(b)
 	}
 	txt := UF("inj/b58enc", b58EncLen(len(b)), b)
+	b58Alphabet(txt)
 	for i, d := range b58decs {
 		if len(d.txt) == len(txt) && len(d.raw) == len(b) {
 			// decoding this very text yields b
@@ -157,6 +168,7 @@ func Model_b58_Decode(s string) ([]byte, error) {
 	// an accepted text is the encoding of its decoding
 	enc := UF("inj/b58enc", len(t), raw)
 	Axiom(BytesEq(enc, t))
+	b58Alphabet(t)
 	b58encs = append(b58encs, b58rec{raw: raw, txt: t})
 	return raw, nil
 }
